@@ -153,6 +153,20 @@ def units():
                         fnum, bpat % sz, sz, elem, throws_reachable=False, extra_source='harness/self_assign.c',
                         proto='struct %s *self_assign(struct %s *self)' % (V, V), extra_reach=[V + '__' + opn])
                     us[-1]['defs'].update({'VEC_N': vn, 'VEC_T': 'struct ' + V, 'SELF_ASSIGN_FN(a, b)': V + '__' + opn + '(a, b)'})
+    # ---- the same wrappers for amc::vector (N = 0) and FixedCapacityVector (N = 4), callee replaced by contract
+    for elem in ('ElemNR', 'ElemTR', 'ElemTC'):
+        et = ELEM_TAG[elem]
+        for sz in ('u8',):
+            for fl, fnum, b, V, vn in (('std', 2, 'StdVectorBase_E_A_%s' % sz, 'Vector_E_A_%s_Dyn_0' % sz, '0'), ('static', 3, 'StaticVectorBase_E_%s' % sz, 'Vector_E_X_%s_Exc_4' % sz, '4')):
+                for m, props, rep in [('op_assign__rr' + V, ['C01', 'C02', 'C05', 'C06', 'C07'], [b + '__move_assign__r%s_%s' % (b, sz)]),
+                                      ('shrink_to_fit__v', ['C01', 'C05', 'C06', 'C09', 'C18'], [b + '__shrink_impl__' + sz]),
+                                      ('swap__r' + V, ['C01', 'C02', 'C05', 'C06', 'C07'], [b + '__swap_impl__r' + b])]:
+                    pp = [p for p in props if not (fl == 'static' and p in ('C06', 'C18')) and not (fl == 'std' and p == 'C05')]
+                    if fl == 'static':
+                        rep = []        # the fixed-capacity base functions are small: inlined (their contracts have their own units fvb.*)
+                    add('vecw.%s.%s.%s.%s' % (m.split('__')[0] + '_' + m.split('__')[1][:4], fl, et, sz), V + '__' + m, pp, fnum, b, sz, elem, replace=rep,
+                        throws_reachable=(m.startswith('shrink') and fl == 'std'))
+                    us[-1]['defs']['VEC_N'] = vn
     # ---- C15: amc:: emulations of the memory algorithms (configurations before C++17)
     for m in ['destroy_n__pE_u8', 'destroy_n__pE_i32', 'destroy__pE_pE', 'memory_details__uninitialized_copy_n_impl__pE_i32_pE_Default', 'memory_details__uninitialized_move_n_impl__pE_u8_pE_Default',
               'memory_details__uninitialized_relocate_n_impl__pE_u8_pE_Default',
